@@ -59,6 +59,13 @@ def config_case(draw):
         nodes.append({"p": wrapped, "sweep": {"vars": {"t": {"kind": "ctx", "key": "seq"}, "s": {"kind": "ctx", "key": "t_values"}},
                                                 "params": {p0: draw(st.sampled_from(gen.EXPRS2)).format(v="t", u="s")},
                                                 "mode": "by_position", "broadcast": True, "collection": "FloatDataCollection"}})
+    # a sweep whose expression hinges on operand order (non-commutative operators, chained comparisons, conditionals)
+    if draw(st.sampled_from([False, True, False, False])):
+        wrapped = draw(st.sampled_from(gen.SWEEPABLE["operation"]))
+        p0 = M.LIB[wrapped]["params"][0][0]
+        nodes.append({"p": wrapped, "sweep": {"vars": {"t": {"kind": "values", "values": [1.0, 2.0]}, "s": {"kind": "values", "values": [0.5, 3.0]}},
+                                                "params": {p0: draw(st.sampled_from(gen.EXPRS2_SEMANTIC)).format(v="t", u="s")},
+                                                "mode": "combinatorial", "broadcast": False, "collection": "FloatDataCollection"}})
     # nested parameter values
     if draw(st.integers(0, 4)) == 0:
         nodes.append({"p": "VNestedParamOp", "params": {"opts": {"k": draw(gen.floats), "deep": {"a": [1.0, {"b": draw(st.sampled_from(["x", "y"]))}], "flag": draw(st.booleans())}}}})
@@ -75,14 +82,20 @@ def config_case(draw):
             blocks.append({"mode": draw(st.sampled_from(["by_position", "combinatorial"])),
                            "context": {k: [draw(st.sampled_from(gen.FLOATS)) for _ in range(n)] for k in keys}})
         rs = {"combine": draw(st.sampled_from(["combinatorial", "by_position"])), "max_runs": draw(st.sampled_from([10, 100, 1000])), "blocks": blocks}
+    null_parameters = draw(st.sampled_from([False, True, False]))
     rewrites = [{"seed": draw(st.integers(0, 2 ** 31)), "kinds": draw(st.sampled_from(KIND_CHOICES))} for _ in range(4)]
     if any(n.get("sweep") and n["sweep"].get("params") for n in nodes):
         rewrites[0]["kinds"] = ["commute_expr", "permute_keys"]
-    return {"nodes": nodes, "run_space": rs, "rewrites": rewrites}
+    return {"nodes": nodes, "run_space": rs, "rewrites": rewrites, "null_parameters": null_parameters}
 
 
 def to_mapping(case: Dict[str, Any]) -> Dict[str, Any]:
     cfg: Dict[str, Any] = {"extensions": ["verif.lib.components"], "pipeline": {"nodes": M.to_config(case)}}
+    if case.get("null_parameters"):
+        # `parameters:` written without a value (YAML null) on nodes that have none
+        for n in cfg["pipeline"]["nodes"]:
+            if "parameters" not in n:
+                n["parameters"] = None
     if case.get("run_space"):
         cfg["run_space"] = copy.deepcopy(case["run_space"])
     return cfg
@@ -179,7 +192,7 @@ def cli_inspect(path: str, extended: bool) -> Dict[str, Any]:
 def check_case(case: Dict[str, Any], col: Collector, tdir: str, light: bool = False) -> Dict[str, Any]:
     cfg = to_mapping(case)
     base = identity_record(cfg)
-    rep = {k: case.get(k) for k in ("nodes", "run_space", "rewrites")}
+    rep = {k: case.get(k) for k in ("nodes", "run_space", "rewrites", "null_parameters")}
     labs = ["sweep" if any(n.get("sweep") for n in case["nodes"]) else "no_sweep", "run_space" if case.get("run_space") else "no_run_space"]
     if case.get("twin"):
         labs.append("name_twin" if case["twin"] == "name" else "retyped_twin")
@@ -239,7 +252,23 @@ def check_case(case: Dict[str, Any], col: Collector, tdir: str, light: bool = Fa
             for f in ("semantic_id", "config_id", "run_space_spec_id", "required_context_keys", "uuids", "node_semantic_ids"):
                 if f in got and got[f] != base.get(f) and not (f == "run_space_spec_id" and got[f] is None and base.get(f) is None):
                     col.add("inspect_stdout_differs_from_payload", {"field": f, "extended": ext}, rep, got[f], base.get(f))
+        # the YAML loader path (what `semantiva run` builds its Pipeline from)
+        try:
+            from semantiva.configurations.load_pipeline_from_yaml import load_pipeline_from_yaml
+            from semantiva.pipeline import Pipeline
+            from semantiva.pipeline.graph_builder import compute_pipeline_id
+
+            loaded = load_pipeline_from_yaml(path)
+            lp = Pipeline(loaded.nodes)
+            got_l = {"pipeline_uuids": [n["node_uuid"] for n in lp.canonical_spec["nodes"]], "pipeline_id": compute_pipeline_id(lp.canonical_spec)}
+            for f in got_l:
+                if got_l[f] != base.get(f):
+                    col.add("yaml_loader_pipeline_differs_from_inspection", {"field": f, "null_parameters": bool(case.get("null_parameters"))}, rep, got_l[f], base.get(f))
+        except Exception as exc:  # noqa: BLE001
+            col.add("yaml_loader_rejects_inspectable_configuration", {"exc": type(exc).__name__}, rep, repr(exc)[:160])
         labs.append("path:trace+cli")
+        if case.get("null_parameters"):
+            labs.append("null_parameters")
     nparams = sum(1 for n in case["nodes"] if n.get("params") or n.get("sweep"))
     col.count(rep, labs, changed_any and (nparams >= 2 or "sweep" in labs))
     return base
@@ -251,7 +280,7 @@ def _retype(obj: Any) -> Any:
         return {k: _retype(v) for k, v in obj.items()}
     if isinstance(obj, list):
         return [_retype(v) for v in obj]
-    if isinstance(obj, float) and obj == int(obj) and abs(obj) < 1e6:
+    if isinstance(obj, float) and abs(obj) < 1e6 and obj == int(obj):
         return int(obj)
     return obj
 
@@ -360,24 +389,24 @@ def run_shard(spec: Dict[str, Any]) -> Dict[str, Any]:
             os.makedirs(sub)
             base = check_case(c, col, sub, light=(i % 2 == 1))
             shutil.rmtree(sub, ignore_errors=True)
-            ch = short_hash({k: c[k] for k in ("nodes", "run_space")})
+            ch = short_hash({k: c.get(k) for k in ("nodes", "run_space", "null_parameters")})
             records.append([ch, {f: h(base.get(f)) for f in FIELDS}, v["tag"]])
             if len(first) < 12:
                 first[ch] = base
         # history: re-observe the first configurations after everything else ran in this interpreter
         for c in order[:12]:
-            ch = short_hash({k: c[k] for k in ("nodes", "run_space")})
+            ch = short_hash({k: c.get(k) for k in ("nodes", "run_space", "null_parameters")})
             again = identity_record(to_mapping(c))
             d = diff_fields(first[ch], again)
             col.labels["history_reobserved"] += 1
             if d:
-                col.add("identity_changes_with_history", {"fields": d[:3]}, {k: c.get(k) for k in ("nodes", "run_space", "rewrites")},
+                col.add("identity_changes_with_history", {"fields": d[:3]}, {k: c.get(k) for k in ("nodes", "run_space", "rewrites", "null_parameters")},
                         {f: again.get(f) for f in d if f != "payload"}, {f: first[ch].get(f) for f in d if f != "payload"})
     finally:
         shutil.rmtree(tdir, ignore_errors=True)
     col.extra["records"] = records
     if spec["variant"] == 0:
-        col.extra["cases"] = [[short_hash({k: c[k] for k in ("nodes", "run_space")}), {k: c.get(k) for k in ("nodes", "run_space", "rewrites")}] for c in cases]
+        col.extra["cases"] = [[short_hash({k: c.get(k) for k in ("nodes", "run_space", "null_parameters")}), {k: c.get(k) for k in ("nodes", "run_space", "rewrites", "null_parameters")}] for c in cases]
     return col.result()
 
 
